@@ -56,7 +56,18 @@ def verify(src, k, name, prop):
     try:
         os.makedirs(os.path.join(wt, "_out"), exist_ok=True)
         shutil.copy(demo, os.path.join(wt, "_out", "demo%s.py" % k))
-        # the demo may reference its own location; keep the same relative layout (_out/demoK.py)
+        helpers = [f for f in os.listdir(src) if f.endswith(".py") and not f.startswith("demo") and not f.startswith("explore") and not f.startswith("harness_dev")]
+        for f in helpers:  # helper modules a demo imports from its own directory
+            shutil.copy(os.path.join(src, f), os.path.join(wt, "_out", f))
+            shutil.copy(os.path.join(src, f), os.path.join(dst, f))
+        # demos may hard-code their original worktree path: point the copies at this scratch worktree
+        for f in os.listdir(os.path.join(wt, "_out")):
+            if f.endswith(".py"):
+                fp = os.path.join(wt, "_out", f)
+                txt = open(fp).read()
+                txt2 = re.sub(r"/tmp/wt_C\d+", wt, txt)
+                if txt2 != txt:
+                    open(fp, "w").write(txt2)
         rc0, out0 = sh("/venv/bin/python _out/demo%s.py" % k, cwd=wt, env=env, timeout=900)
         res["demo_clean_rc"] = rc0
         rc, out = sh("git apply %s" % patch, cwd=wt)
@@ -66,7 +77,7 @@ def verify(src, k, name, prop):
         rc1, out1 = sh("/venv/bin/python _out/demo%s.py" % k, cwd=wt, env=env, timeout=900)
         res["demo_patched_rc"] = rc1
         res["demo_patched_tail"] = out1[-400:]
-        rct, outt = sh("/venv/bin/python -m pytest -q -p no:cacheprovider --timeout=900 phyclone/tests 2>&1 | tail -15", cwd=wt, env=env, timeout=3600)
+        rct, outt = sh("/venv/bin/python -m pytest -q -p no:cacheprovider --timeout=900 --continue-on-collection-errors phyclone/tests 2>&1 | tail -15", cwd=wt, env=env, timeout=3600)
         m = re.search(r"(\d+) passed", outt)
         failed = set(re.findall(r"FAILED (\S+)", outt))
         res["suite_passed"] = int(m.group(1)) if m else None
